@@ -24,7 +24,7 @@ import (
 func runFuzz(c *core.Ctx, r *rec, idx int) {
 	g := &Gen{r: c.Rand(fmt.Sprintf("fuzz-%d", idx)), uid: 3_000_000_000 + int64(idx)*10_000_000}
 	fb := flatbuffers.NewBuilder(2048)
-	n := c.Pick(1500, 40000)
+	n := c.Pick(9000, 60000)
 	junk := []string{",", " ", "=", "\\", "\"", "\n", "#", "\\ ", "\\,", "\\=", ",,", "  ", "==", "i", "t", "NaN", "Inf", "|", "\x00", "\xff", "é", "1e999", "-", "=i ", "=u,", "=I "}
 	for k := 0; k < n; k++ {
 		format := []string{fmtLine, fmtLine, fmtFlat, fmtProto}[g.r.Intn(4)]
@@ -138,7 +138,7 @@ func runFuzz(c *core.Ctx, r *rec, idx int) {
 		if seen != batch.Len() {
 			pre := false
 			for _, br := range batch.Rows() {
-				if ts := rowFromFlat(br.Metric()).TS; ts < 0 && ts > -1000 {
+				if outOfDomainTS(rowFromFlat(br.Metric()).TS) {
 					pre = true
 				}
 			}
